@@ -11,5 +11,8 @@ CONSTANTS
   DevSortBreakStops = FALSE
   DevSortEmptyNoComplete = FALSE
   DevSpaceCountsKeyless = FALSE
+  Files = 2
+  DevBreakEndsFileOnly = FALSE
+VIEW View
 CHECK_DEADLOCK FALSE
 INVARIANT Composition
